@@ -1199,6 +1199,8 @@ class Interp:
     def x_For(self, st):
         rule = self.loop_rule(st)
         it = self.eval(st.iter)
+        if hasattr(it, "as_sseq"):
+            it = it.as_sseq()
         if rule is not None:
             return rule.run_for(self, st, it)
         if hasattr(it, "vfor"):
@@ -1349,6 +1351,8 @@ class Interp:
         return models.getitem(self, v, k)
 
     def setitem(self, v, k, val):
+        if hasattr(v, "vsetitem"):
+            return v.vsetitem(self, k, val)
         if isinstance(v, PyDict):
             return self.dict_set(v, k, val)
         if isinstance(v, PyList):
@@ -1362,6 +1366,8 @@ class Interp:
         raise Outside(f"setitem on {type(v).__name__}")
 
     def delitem(self, v, k):
+        if hasattr(v, "vdelitem"):
+            return v.vdelitem(self, k)
         self.check_mutable(v)
         if isinstance(v, PyDict):
             tok = self.key_token(k)
